@@ -127,9 +127,9 @@ def hl_forms(D, named):
         if named:
             f += ['CH1', ['CH1']]
     else:
-        f = [None, 0, 1, [0], [1, 0], [0, 1], -1]
+        f = [None, 0, 1, [0], [1, 0], [0, 1], -1, (1, 0), [-1, -2], (-2,)]
         if named:
-            f += ['CH2', ['CH2', 'CH1'], [0, 'CH2']]
+            f += ['CH2', ['CH2', 'CH1'], [0, 'CH2'], ('CH1', 1), ('CH2',)]
     return f
 
 
@@ -159,7 +159,7 @@ def run_high_low(c, res):
             for form in hl_forms(Dd, named):
                 if form is None:
                     sel = list(range(Dd))
-                elif isinstance(form, list):
+                elif isinstance(form, (list, tuple)):
                     sel = [f if isinstance(f, int) else int(f[2:]) - 1 for f in form]
                 else:
                     sel = [form if isinstance(form, int) else int(form[2:]) - 1]
